@@ -98,6 +98,10 @@ Ops(S) ==
       \cup (IF "badpos" \in OpNames THEN
               {[name |-> "move_to", x |-> xp[1], p |-> xp[2], pos |-> [t |-> "idx", v |-> Len(KidsOf(S, xp[2])) + 2]] :
                   xp \in {q \in Live(S) \X Parents(S) : S.par[q[1]] # q[2]}}
+              \cup   \* before=<a node that is not a child of the target> (possibly a clone of one)
+              UNION {{[name |-> "move_to", x |-> xp[1], p |-> xp[2], pos |-> [t |-> "node", v |-> b]] :
+                         b \in Live(S) \ (SeqSet(KidsOf(S, xp[2])) \cup {xp[1]})} :
+                     xp \in Live(S) \X Parents(S)}
             ELSE {})
       \cup {[name |-> "move_foreign", x |-> x] : x \in Live(S)}
     ELSE {})
@@ -129,6 +133,11 @@ Ops(S) ==
    \cup
    (IF "filter" \in OpNames THEN
       {[name |-> "filter", p |-> p, v |-> v] : p \in Parents(S), v \in [1..S.n -> {"T", "F"}]}
+    ELSE {})
+   \cup
+   (IF "filterx" \in OpNames THEN     \* the full verdict alphabet (C08's subject) as a mutation like any other (C01, C04)
+      {[name |-> "filter", p |-> p, v |-> v] : p \in Parents(S),
+          v \in [1..S.n -> {"T", "F", "skip", "skipKeep", "select", "stop"}] \ [1..S.n -> {"T", "F"}]}
     ELSE {})
 
 ----------------------------------------------------------------------------
